@@ -107,7 +107,7 @@ func (c *Chunk) Available(n int) bool {
 // drained. The return value n is the number of bytes read and any errors that
 // may have occurred.
 func (c *Chunk) Read(b []byte) (int, error) {
-	if c.Empty() && c.buf != nil {
+	if c.Empty() {
 		if c.Reset(); len(b) == 0 {
 			return 0, nil
 		}
